@@ -18,6 +18,16 @@ package commitlog
 // kill mode (validation of the snapshot shortcut): a child process runs the
 // same workload and SIGKILLs itself at (point, occurrence); what is recovered
 // from its directory must equal what is recovered from the snapshot image.
+// syscallkill mode (c05_syscall_test.go; crash instants that no hook point
+// marks): a child runs the workload under `strace -e inject=...:signal=SIGKILL`
+// and dies on entering the N-th file-system call of a chosen kind; same oracle.
+//
+// The oracle (c05CheckRecovered) is shared by the three units.  Its epoch
+// clause goes both ways: every message's epoch is known to the recovered
+// history (c05EpochConsistent) AND every claim of the history is borne out by
+// the messages (c05HistoryBorneOut: no entry beyond the newest offset, entry
+// start offsets carry their epoch unless the epoch was announced by an
+// election, LastLeaderEpoch / LastOffsetForLeaderEpoch agree with the messages).
 
 import (
 	"bytes"
@@ -1117,9 +1127,10 @@ func c05EpochConsistent(entries []epochOffset, recs []vfRec, newest int64) strin
 //
 //   - no entry starts beyond the newest offset (recovery trims the checkpoint to
 //     the log: an epoch whose first append never reached the log is forgotten);
-//   - an entry (e, s) is either append-style (the message at s carries e) or
+//   - an entry (e, s) is either append-style (the message at s carries e),
 //     election-style (e was announced with NewLeaderEpoch when s was the newest
-//     offset: the message at s carries an older epoch); an entry whose epoch no
+//     offset: the message at s carries an older epoch) or empty by the history's
+//     own account (the next entry starts at s too); an entry whose epoch no
 //     message carries is legitimate only for an announced epoch, or while a clean
 //     that was removing that epoch's messages was in flight;
 //   - LastLeaderEpoch() is the epoch of the newest message unless a later epoch
@@ -1147,10 +1158,16 @@ func c05HistoryBorneOut(l *commitLog, entries []epochOffset, recs []vfRec, img *
 	for _, r := range img.Pre {
 		preHas[r.Epoch] = true
 	}
-	for _, e := range entries {
-		if m, ok := at[e.startOffset]; ok && m.Epoch != e.leaderEpoch {
+	for i, e := range entries {
+		// An entry followed by another one with the same start offset is an
+		// epoch that is empty by the history's own account (e.g. an election on
+		// an empty log, moved to the log start by ClearEarliest, followed by the
+		// first append of a later epoch): the message at that offset belongs to
+		// the later entry.
+		emptyByHistory := i+1 < len(entries) && entries[i+1].startOffset == e.startOffset
+		if m, ok := at[e.startOffset]; ok && m.Epoch != e.leaderEpoch && !emptyByHistory {
 			if !(img.Elected[e.leaderEpoch] && m.Epoch < e.leaderEpoch) {
-				return fmt.Sprintf("the recovered epoch history %v says leader epoch %d starts at offset %d, but the message at that offset carries leader epoch %d (and epoch %d was never announced by an election)", entries, e.leaderEpoch, e.startOffset, m.Epoch, e.leaderEpoch)
+				return fmt.Sprintf("the recovered epoch history %v says leader epoch %d starts at offset %d, but the message at that offset carries leader epoch %d (announced by an election: %v)", entries, e.leaderEpoch, e.startOffset, m.Epoch, img.Elected[e.leaderEpoch])
 			}
 		}
 		if !carried[e.leaderEpoch] && !img.Elected[e.leaderEpoch] && !(img.OpKind == "C" && preHas[e.leaderEpoch]) {
@@ -1263,10 +1280,10 @@ var c05AllPoints = []string{
 func TestVerifC05Snapshot(t *testing.T) {
 	rep := kit.NewReport("C05", "snapshot")
 	defer rep.Write()
-	rep.SetRule("fault enumeration: for each seeded workload (appends with epoch bumps, explicit splits, truncations > HW, HW moves + checkpoints, NewLeaderEpoch, Clean with retention and/or compaction; 4 segment sizes) EVERY hit of EVERY crash point yields one crash image (directory copy under the process-crash model); each image is recovered with commitlog.New, checked (no duplicate / phantom / lost completed message, NewestOffset consistent, HW not above pre-crash HW, epoch history matches messages) and then used further (append+roll, truncate, clean, close+reopen); distinct non-trivial = distinct (plan, point, occurrence) images whose in-flight operation is not a pure no-op")
+	rep.SetRule("fault enumeration: for each seeded workload (Append and AppendMessageSet with epoch bumps, explicit splits, truncations > HW at seeded positions and exactly at a segment base / the first offset of the latest leader epoch / the newest offset, HW moves + checkpoints, NewLeaderEpoch, Clean with retention and/or compaction; 4 segment sizes) EVERY hit of EVERY crash point yields one crash image (directory copy under the process-crash model); each image is recovered with commitlog.New, checked (no duplicate / phantom / lost completed message, NewestOffset consistent, HW not above pre-crash HW, epoch history matches messages in both directions: every message epoch known to the history, and no history entry beyond the newest offset / starting at a message of another epoch / for an epoch nobody announced and no message carries, LastLeaderEpoch and LastOffsetForLeaderEpoch agreeing with the messages) and then used further (append+roll, truncate, clean, close+reopen); distinct non-trivial = distinct (plan, point, occurrence) images whose in-flight operation is not a pure no-op")
 	rep.SetExhaustive(true)
 	rep.Assume("process-crash model: the OS keeps completed write/rename/unlink/ftruncate effects and dirty MAP_SHARED pages; power loss / missing fsync is not covered")
-	rep.Assume("crash instants are the hook points between file-system effects; a crash in the middle of a single syscall or inside the third-party atomic file writer is not enumerated here")
+	rep.Assume("crash instants are the hook points between file-system effects; crash instants between file-system calls that no hook point marks (e.g. inside the third-party atomic file writer) are the subject of unit syscallkill")
 	rep.Assume("compaction keys are nil or non-empty (empty-key handling is judged by C08)")
 	verifhook.Set(c05Dispatch)
 	defer verifhook.Set(nil)
